@@ -148,6 +148,16 @@ impl Ctx {
         }
     }
 
+    /// With `VERIF_MARK` set (crash triage, `tools/after_crash.sh`): name the operation that is
+    /// about to run on stderr, so that a process killed inside a library call leaves behind which
+    /// call it was.
+    pub fn mark_op(&self) {
+        static ON: std::sync::OnceLock<bool> = std::sync::OnceLock::new();
+        if *ON.get_or_init(|| std::env::var_os("VERIF_MARK").is_some()) {
+            eprintln!("op-in-flight: {} {}", self.step, self.cur_op);
+        }
+    }
+
     #[inline]
     pub fn bump(&mut self, s: S) {
         self.st[s as usize] += 1;
